@@ -18,6 +18,7 @@ import (
 	"strconv"
 	"strings"
 	"sync"
+	"sync/atomic"
 	"syscall"
 	"time"
 
@@ -440,7 +441,7 @@ type canaryState struct {
 }
 
 func RunC11(c *lib.Ctx) {
-	c.Rule = "case = one raw HTTP request (method x route of the API and management muxes x body class: valid, empty object, null, wrong types, empty/huge collections, digests of length 0..4096, versions 0..2^64 and beyond, missing parameters, truncated/garbled JSON, wrong Content-Length, non-HTTP bytes) sent over a fresh TCP connection to a real server.Server running in a child process; after EACH request: a well-formed HTTP response must have arrived (no dropped connection), the process must be alive and answer HEAD /healthcheck; the number of accepted events is tracked from the 201 answers and a full add + membership-verify canary (version must equal the tracked count) runs every 20 requests; at the end the server is stopped (exit 0), restarted on the same directories (log replay) and must pass the canary again; a 3-node variant sends the insertion-related requests to the leader and requires all three processes to stay alive and to converge; non-trivial = request that reached a handler; distinct by (mux, method, path, body class, status)."
+	c.Rule = "case = one raw HTTP request (method x route of the API and management muxes x body class: valid, empty object, null, wrong types, empty/huge collections, digests of length 0..4096, versions 0..2^64 and beyond, missing parameters, truncated/garbled JSON, wrong Content-Length, non-HTTP bytes) sent over a fresh TCP connection to a real server.Server running in a child process; after EACH request: a well-formed HTTP response must have arrived (no dropped connection), the process must be alive and answer HEAD /healthcheck; the number of accepted events is tracked from the 201 answers and a full add + membership-verify canary (version must equal the tracked count) runs every 20 requests; then six connections send valid insertions and queries of every kind at once and the canary must still be served; at the end the server is stopped (exit 0), restarted on the same directories (log replay) and must pass the canary again; a 3-node variant sends the insertion-related requests to the leader and requires all three processes to stay alive and to converge; non-trivial = request that reached a handler; distinct by (mux, method, path, body class, status)."
 	c.Assume = []string{"a request that does not parse as HTTP at all may be answered 400 by net/http and closed: that is a well-formed response", "request bodies are bounded to 8 MB (transport limits are out of scope)"}
 	nreq := c.Q(500, 12000)
 	r := c.Rand("corpus")
@@ -685,6 +686,75 @@ func RunC11(c *lib.Ctx) {
 	c.Count("ms_phase_single_node_loop", int64(time.Since(tPhase)/time.Millisecond))
 	tPhase = time.Now()
 	defer func() { c.Count("ms_phase_replay_and_cluster", int64(time.Since(tPhase)/time.Millisecond)) }()
+	// concurrent phase: the corpus above is sent one request at a time; clients of a real server overlap.
+	// Several connections send valid insertions and queries of every kind at once; afterwards the canary
+	// must still be served (an insertion stuck behind a query that never finishes is a wedged server).
+	if c.Only == "" && srv.alive() && canary("before-concurrent") {
+		ev0, v0 := known()
+		var accepted2, answered, unanswered int64
+		var wgc sync.WaitGroup
+		stopc := int32(0)
+		G, per := 6, c.Q(80, 600)
+		for g := 0; g < G; g++ {
+			wgc.Add(1)
+			rg := lib.NewRand(r.Uint64())
+			go func(g int) {
+				defer wgc.Done()
+				for k := 0; k < per && atomic.LoadInt32(&stopc) == 0; k++ {
+					var path string
+					var body []byte
+					switch rg.Intn(6) {
+					case 0, 1:
+						path = "/events"
+						body, _ = json.Marshal(&protocol.Event{Event: []byte(fmt.Sprintf("conc-%d-%d", g, k))})
+					case 2:
+						path = "/proofs/membership"
+						v := v0
+						body, _ = json.Marshal(&protocol.MembershipQuery{Key: []byte(ev0), Version: &v})
+					case 3:
+						path = "/proofs/membership"
+						body, _ = json.Marshal(&protocol.MembershipQuery{Key: []byte(ev0)})
+					case 4:
+						path = "/proofs/digest-membership"
+						v := v0
+						body, _ = json.Marshal(&protocol.MembershipDigest{KeyDigest: hashing.NewSha256Hasher().Do([]byte(ev0)), Version: &v})
+					default:
+						path = "/proofs/incremental"
+						body, _ = json.Marshal(&protocol.IncrementalRequest{Start: uint64(rg.Intn(int(v0) + 1)), End: v0})
+					}
+					resp := rawRequest(srv.api(), buildRequest("POST", path, body, -1, ""), 60*time.Second)
+					if resp.err != "" {
+						atomic.AddInt64(&unanswered, 1)
+						atomic.StoreInt32(&stopc, 1) // one unanswered request ends the phase: the canary decides
+						return
+					}
+					atomic.AddInt64(&answered, 1)
+					if path == "/events" && resp.status == 201 {
+						atomic.AddInt64(&accepted2, 1)
+					}
+				}
+			}(g)
+		}
+		wgc.Wait()
+		stMu.Lock()
+		st.accepted += uint64(accepted2)
+		stMu.Unlock()
+		if unanswered > 0 {
+			uncertain = true
+		}
+		c.Count("concurrent_requests_answered", answered)
+		c.Count("concurrent_requests_unanswered(watchdog)", unanswered)
+		if srv.alive() {
+			if canary("after-concurrent") {
+				c.Case("concurrent-clients", answered > 50)
+			}
+		} else {
+			c.Violation("C11:concurrent:server-died", "valid insertions and queries sent over several connections at once killed the server process: "+firstOf(tailFile(srv.outp, 4000), "panic:", "fatal error:", "Assertion"), map[string]string{"id": "concurrent", "server_log_tail": tailFile(srv.outp, 1500)})
+			if !restart("death in the concurrent phase") {
+				return
+			}
+		}
+	}
 	// clean stop, restart on the same data (log replay), canary
 	canary("before-stop")
 	if code := srv.stop(); code == -1 {
